@@ -10,7 +10,7 @@ from common import R, fl
 
 from common import wiring_pre_build as pre_build  # noqa: E402,F401
 
-LEAN_MODULES = ["PyomaVerif.Props.C11", "PyomaVerif.Mutants.C11", "PyomaVerif.Props.WiringMpe", "PyomaVerif.Props.C11Plscf", "PyomaVerif.Props.C11Stored", "PyomaVerif.Props.WiringClass", "PyomaVerif.Props.WiringCalls"]
+LEAN_MODULES = ["PyomaVerif.Props.C11", "PyomaVerif.Mutants.C11", "PyomaVerif.Props.WiringMpe", "PyomaVerif.Props.C11Plscf", "PyomaVerif.Props.C11Stored", "PyomaVerif.Props.WiringClass", "PyomaVerif.Props.WiringCalls", "PyomaVerif.Props.C11Py", "PyomaVerif.Mutants.C11Py"]
 THEOREMS = [
     # call-site wiring of the class layer, regenerated from /repo on every run (translate_wiring.py)
     "PV.WiringMpe.C11_ssi_mpe_args",
@@ -63,6 +63,28 @@ THEOREMS = [
     # depth round (audit C11 gap 4): extraction from the STORED tables (one mask, C09) returns whole retained poles with their unfiltered values
     "PV.C11Stored.C11_stored_whole",
     "PV.C11Stored.C11_run_extract",
+    # depth round 2 (gap 9): every Python value of `order` (ssiMpePy/plscfMpePy are what the ops run), raw output shapes
+    "PV.C11.C11_py_eq",
+    "PV.C11.C11_plscf_py_eq",
+    "PV.C11.C11_int_order_eq",
+    "PV.C11.C11_neg_order_eq",
+    "PV.C11.C11_int_order_out_of_range",
+    "PV.C11.C11_list_order_eq",
+    "PV.C11.C11_plscf_int_order_eq",
+    "PV.C11.C11_plscf_list_order_eq",
+    "PV.C11.C11_other_order_raises",
+    "PV.C11.C11_plscf_other_order_raises",
+    "PV.C11.C11_plscf_other_order_empty",
+    "PV.C11.C11_bool_order_not_ok",
+    "PV.C11.C11_py_whole",
+    "PV.C11.C11_py_error_iff",
+    "PV.C11.C11_plscf_py_whole",
+    "PV.C11.C11_plscf_error_iff",
+    "PV.C11.C11_shapes",
+    "PV.C11.C11_plscf_shapes",
+    "PV.C11.Mutants.no_reshape_find_min_2d",
+    "PV.C11.Mutants.no_reshape_explicit_same",
+    "PV.C11.Mutants.no_raise_mutant_returns",
 ]
 RULE = (
     "correspondence: ssi.SSI_mpe / plscf.pLSCF_mpe vs Mpe.ssiMpe / Mpe.plscfMpe on random pole tables (<= 10x10, values on a "
@@ -75,12 +97,19 @@ RULE = (
     "(function, order form, rows, cols, #requests, outcome). find_min in depth: pLSCF_mpe[find_min-lab7] = the same generator with "
     "the stable poles labelled 7 (the label the pinned routine selects; 1..4 columns so that the never-tested last column and the "
     "index wrap occur), SSI_mpe/pLSCF_mpe[find_min-dup] = stable poles duplicated at exactly equal frequency in another row, "
-    "[find_min-witness] = the kernel-checked witness tables of Mutants/C11.lean run on the real functions"
+    "[find_min-witness] = the kernel-checked witness tables of Mutants/C11.lean run on the real functions. "
+    "The ops run ssiMpePy / plscfMpePy (Model/MpePy.lean: the Python object passed as order) and return np.shape of the assembled "
+    "arrays (ssiShapes / plscfShapes), compared in every stream with the raw np.shape of what the functions return / the classes "
+    "store BEFORE any flattening; [order-kinds] = order in {None, np.int64, True, False, float, tuple, other str, negative int, "
+    "int below -cols, lists with negative / out-of-range entries}, 12% empty request lists, 10% all-NaN tables: exception class, "
+    "order_out, values, shapes identical (order=True selecting a row block is outside the model: skipped and counted)"
 )
 EXTRA_TRUSTED = ["float rounding in np.isclose / band edges (poles within 1e-9 of an edge are not judged)"]
 ASSUMPTIONS = [
     "numpy nanargmin/isclose/unique/where semantics are mirrored by NanTable (validated by the correspondence)",
-    "orders are non-negative column indices (negative Python indices not modelled)",
+    "order=True when numpy's boolean-scalar index lets the call get past its first request returns a (1, cols) row block per request: "
+    "not modelled (Model/MpePy.boolFirst marks it, the correspondence skips and counts it); lists whose entries are not Python ints "
+    "(bool, np.int64) are not generated",
     "'within tolerance' for find_min = inside the band the routine uses (SSI: [f-rtol, f+rtol]; pLSCF: (f-deltaf, f+deltaf)) and np.isclose(pole, f, rtol)",
     "SSI find_min: 'exactly one stable pole' is proved (and coded) as 'exactly one distinct stable frequency value'; stable poles of exactly "
     "equal frequency count once and the first row is returned (C11_find_min_value_set_only, C11_find_min_from_order_first, "
